@@ -20,12 +20,21 @@ def _apply(zs, kind, y):
         if kind == 1:
             e = calendar.timegm((y, mo, 15, 12, 30, 0)) - 946684800
             return ('secs', tuple(zs.get_timezone_info_for_seconds(e)))
-        r = zs.get_timezone_info_for_datetime(datetime.datetime(y, mo, 15, 12, 30, 0))
-        return ('dt', tuple(r) if r else None)
+        if kind == 2:
+            r = zs.get_timezone_info_for_datetime(datetime.datetime(y, mo, 15, 12, 30, 0))
+            return ('dt', tuple(r) if r else None)
+        if kind == 3:      # local date-time lookups at the edges of the year (a gap that starts with the year; the 13-month window)
+            r = zs.get_timezone_info_for_datetime(datetime.datetime(y, 1, 1, 0, 30, 0)); return ('dt-jan1', tuple(r) if r else None)
+        if kind == 4:
+            r = zs.get_timezone_info_for_datetime(datetime.datetime(y, 12, 31, 23, 30, 0)); return ('dt-dec31', tuple(r) if r else None)
+        if kind == 5:
+            e = calendar.timegm((y, 1, 1, 12, 0, 0)) - 946684800
+            return ('secs-jan1', tuple(zs.get_timezone_info_for_seconds(e)))
     except Exception as ex:   # whatever a fresh instance does, history must do the same
         return ('exc', type(ex).__name__)
 
-def _zone(name):
+def _zone(arg):
+    name, do_main = arg
     from zonedb.zone_specifier import ZoneSpecifier
     zi = _G['infos'][name]
     exp = {}
@@ -35,7 +44,7 @@ def _zone(name):
         return exp[(kind, y)]
     zs = ZoneSpecifier(zi)
     viol, n, hist = [], 0, []
-    for i, y1 in enumerate(YEARS):
+    for i, y1 in enumerate(YEARS if do_main else []):
         for j, y2 in enumerate(YEARS):
             for (k, y) in (((i + j) % 3, y1), ((i + 2 * j + 1) % 3, y2)):
                 got = _apply(zs, k, y)
@@ -43,10 +52,29 @@ def _zone(name):
                 hist.append((k, y))
                 if got != expected(k, y) and len(viol) < 3:
                     viol.append({'zone': name, 'history_tail': hist[-4:], 'got': repr(got)[:300], 'fresh': repr(expected(k, y))[:300]})
+    # edge pass, default and 13-month windows: year-edge queries on y with y-1 / y / y+1 cached (by each kind of earlier call)
+    for opts in ({}, {'viewing_months': 13}, {'viewing_months': 13, 'in_place_transitions': False, 'optimize_candidates': False}):
+        fresh = {}
+        def expected2(kind, y):
+            if (kind, y) not in fresh:
+                fresh[(kind, y)] = _apply(ZoneSpecifier(zi, **opts), kind, y)
+            return fresh[(kind, y)]
+        zs2 = ZoneSpecifier(zi, **opts)
+        for y in range(2000, 2050):
+            for prev in (y - 1, y, y + 1):
+                for pk in (0, 1, 2):
+                    for k in (3, 4, 5):
+                        _apply(zs2, pk, prev)
+                        got = _apply(zs2, k, y)
+                        n += 1
+                        if got != expected2(k, y) and len(viol) < 5:
+                            viol.append({'zone': name, 'options': opts, 'history_tail': [(pk, prev), (k, y)], 'got': repr(got)[:300], 'fresh': repr(expected2(k, y))[:300]})
     return name, n, viol
 
-def run(zone_infos, names):
+def run(zone_infos, names, main_names=None):
+    """names: zones for the year-edge pass; main_names (default: all of them): zones that also get the all-ordered-year-pairs pass"""
     _G['infos'] = zone_infos
+    main = set(names if main_names is None else main_names)
     with mp.Pool(runner.NCPU) as pool:
-        res = pool.map(_zone, names, chunksize=1)
+        res = pool.map(_zone, [(n, n in main) for n in names], chunksize=1)
     return res
